@@ -20,6 +20,7 @@ import DW.Lemmas.Names
 import DW.Lemmas.GenDump
 import DW.Lemmas.GenDumpPy
 import DW.Lemmas.GenLoad
+import DW.Lemmas.GenLoadPy
 import DW.Generated.Tables
 
 namespace DW.Props.C15
@@ -238,6 +239,12 @@ and the `field` bound by a literal assignment at the head of a `try` body includ
 (`_default_<field>` among them), a global it is executed with, or a builtin — and none of those is shadowed by a local. -/
 theorem C15_genload_well_scoped (printable : Char → Bool) (g : LIn) : wellScoped printable g = true :=
   wellScoped_all printable g
+
+open DW.GenLoad in
+/-- … and under Python's rule taken literally (`checkListPy`: a name bound anywhere in the body is local and must be definitely
+assigned, whatever the closure holds) -/
+theorem C15_genload_well_scoped_py (printable : Char → Bool) (g : LIn) : wellScopedPy printable g = true :=
+  wellScopedPy_all printable g
 
 open DW.GenLoad in
 /-- non-vacuity: the text the model writes for a class with a required path field, a CatchAll field and
